@@ -281,6 +281,7 @@ def struct_decl(s: Struct, derives='', doc=False):
         lines.append(f"    {field_text(f, i)},")
     lines.append("}")
     txt = "\n".join(lines)
+    derives = derives or getattr(s, "derives", "")
     if derives:
         txt = txt.replace("] pub struct", f"] {derives} pub struct", 1)
     return txt
